@@ -38,6 +38,12 @@ func (c *execCtx) evalDefault(tb *Table, col *Column) (Value, error) {
 	if col.Default == nil {
 		return nil, nil
 	}
+	// a default expression is bound to the objects of the table's schema at DDL time
+	if c.sess != nil {
+		saved := c.sess.path
+		c.sess.path = append([]string{tb.Schema}, saved...)
+		defer func() { c.sess.path = saved }()
+	}
 	v, err := (&env{ctx: c, fr: &frame{}, tup: &tuple{}}).eval(col.Default)
 	if err != nil {
 		return nil, err
